@@ -771,29 +771,37 @@ class SmtLibParser(object):
         self.consume_opening(tokens, "expression")
         newvals = {}
         deferred: List[str] = []
+        bound: List[str] = []
         current = "("
         self.consume_opening(tokens, "expression")
-        while current != ")":
-            if current != "(":
-                raise PysmtSyntaxError("Expected '(' in let binding",
-                                       tokens.pos_info)
-            vname = self.parse_atom(tokens, "expression")
-            expr = cast(Union[str, FNode], assert_not_none(self.get_expression(tokens)))
-            if vname in newvals:
-                raise PysmtSyntaxError("'%s' is bound twice in the same let" %
-                                       vname, tokens.pos_info)
-            newvals[vname] = expr
-            if self.cache.get(vname) is None:
-                # Not standard: the name has no meaning outside the
-                # let, we make it visible to the next bindings
-                self.cache.bind(vname, expr)
-            else:
-                # The bindings of a let are simultaneous: the outer
-                # meaning of the name is the one visible in the other
-                # bindings. We bind it after all of them have been read
-                deferred.append(vname)
-            self.consume_closing(tokens, "expression")
-            current = tokens.consume()
+        try:
+            while current != ")":
+                if current != "(":
+                    raise PysmtSyntaxError("Expected '(' in let binding",
+                                           tokens.pos_info)
+                vname = self.parse_atom(tokens, "expression")
+                expr = cast(Union[str, FNode], assert_not_none(self.get_expression(tokens)))
+                if vname in newvals:
+                    raise PysmtSyntaxError("'%s' is bound twice in the same let" %
+                                           vname, tokens.pos_info)
+                newvals[vname] = expr
+                if self.cache.get(vname) is None:
+                    # Not standard: the name has no meaning outside the
+                    # let, we make it visible to the next bindings
+                    self.cache.bind(vname, expr)
+                    bound.append(vname)
+                else:
+                    # The bindings of a let are simultaneous: the outer
+                    # meaning of the name is the one visible in the other
+                    # bindings. We bind it after all of them have been read
+                    deferred.append(vname)
+                self.consume_closing(tokens, "expression")
+                current = tokens.consume()
+        except BaseException:
+            # The bindings of a let that cannot be read are dropped
+            for vname in bound:
+                self.cache.unbind(vname)
+            raise
 
         for vname in deferred:
             self.cache.bind(vname, newvals[vname])
@@ -819,18 +827,24 @@ class SmtLibParser(object):
         self.consume_opening(tokens, "expression")
         current = "("
         self.consume_opening(tokens, "expression")
-        while current != ")":
-            if current != "(":
-                raise PysmtSyntaxError("Expected '(' in let binding", tokens.pos_info)
-            vname = self.parse_atom(tokens, "expression")
-            typename = cast(PySMTType, self.parse_type(tokens, "expression"))
+        try:
+            while current != ")":
+                if current != "(":
+                    raise PysmtSyntaxError("Expected '(' in let binding", tokens.pos_info)
+                vname = self.parse_atom(tokens, "expression")
+                typename = cast(PySMTType, self.parse_type(tokens, "expression"))
 
-            var = self._get_quantified_var(vname, typename)
-            self.cache.bind(vname, var)
-            vrs.append((vname, var))
+                var = self._get_quantified_var(vname, typename)
+                self.cache.bind(vname, var)
+                vrs.append((vname, var))
 
-            self.consume_closing(tokens, "expression")
-            current = tokens.consume()
+                self.consume_closing(tokens, "expression")
+                current = tokens.consume()
+        except BaseException:
+            # The variables of a binder that cannot be read are dropped
+            for vname, _ in vrs:
+                self.cache.unbind(vname)
+            raise
 
         quant = None
         if key == 'forall':
@@ -932,7 +946,22 @@ class SmtLibParser(object):
                         return self.atom(tk, mgr)
         except StopIteration:
             # No more data when trying to consume tokens
+            self._close_open_scopes(stack)
             return None
+        except BaseException:
+            self._close_open_scopes(stack)
+            raise
+
+    def _close_open_scopes(self, stack: List[Any]):
+        """An expression that cannot be read leaves no binding behind: the
+        let / quantifier scopes that are still open are closed."""
+        for lst in reversed(stack):
+            if len(lst) > 1 and lst[0] == self._exit_let:
+                for k in lst[1]:
+                    self.cache.unbind(k)
+            elif len(lst) > 2 and lst[0] == self._exit_quantifier:
+                for k, _ in lst[2]:
+                    self.cache.unbind(k)
 
     def get_script(self, script: TextIO) -> SmtLibScript:
         """
@@ -1476,7 +1505,13 @@ class SmtLibParser(object):
             formal.append(v)  # remember the variable
             bindings.append(x)  # remember the name
         # Parse expression using also parameters
-        ebody: FNode = assert_not_none(self.get_expression(tokens))
+        try:
+            ebody: FNode = assert_not_none(self.get_expression(tokens))
+        except BaseException:
+            # The parameters of a definition that cannot be read are dropped
+            for x in bindings:
+                self.cache.unbind(x)
+            raise
         ebody_type = self.env.stc.get_type(ebody)
         ebody_vars = self.env.fvo.get_free_variables(ebody)
         # Promote constant integer expression to real
